@@ -105,38 +105,39 @@ type Conn struct {
 }
 
 type Backend struct {
-	mu             sync.Mutex
-	Port           int
-	Prefix         string // "127.a.b." ; host n has IP Prefix+n
-	Hosts          map[string]*Host
-	Topology       []string // IPs advertised in system.local / system.peers
-	DC             string
-	DSEVersion     string
-	MaxVersion     primitive.ProtocolVersion
-	Script         map[string][]Outcome
-	Default        Outcome
-	Attempts       map[string]int
-	Log            []Rec
-	BadKeyspaces   map[string]message.Message
-	SlowKeyspaces  map[string]time.Duration // USE of these is answered only after the delay (a backend slower than the proxy's connect timeout)
-	OddKeyspaces   map[string]bool          // USE of these is answered with a RESULT that is not set_keyspace
-	OptionsReplies []Outcome                // raw replies handed out, one each, to the next OPTIONS (heartbeats) of started connections
-	FailSystemOn   map[string]bool          // hosts (IP) whose system-table queries are answered with SERVER_ERROR (no control connection there)
-	StartupDelay   time.Duration            // every STARTUP is answered after this delay (widens the window in which a session is being created)
-	PrepareErr     map[string][]Outcome     // per prepared-id (hex) outcomes of PREPARE attempts
-	prepAttempts   map[string]int
-	nextConn       int
-	seq            int
-	PrepText       map[string]string   // prepared id hex -> query text
-	OnFrame        func(r *Rec)        // optional observer (called with be.mu held)
-	HostDefault    map[string]*Outcome // per-host outcome overriding scripts for data requests (nil = none)
-	Muted          map[string]bool     // hosts that read frames but never answer anything
-	HoldOptions    bool                // while set, OPTIONS (heartbeat) answers of started connections are withheld
-	heldOptions    []func()            // the withheld answers, in arrival order
-	HostPrepareErr map[string]*Outcome // per-host outcome of every PREPARE reaching that host (nil = accept)
-	FailSystem     int                 // the next FailSystem system-table queries are answered with SERVER_ERROR
-	UnpreparedWarn bool                // attach a warning to UNPREPARED answers (v4+)
-	StrictVersion  bool                // answer PROTOCOL_ERROR to frames whose version differs from the connection's STARTUP
+	mu                     sync.Mutex
+	Port                   int
+	Prefix                 string // "127.a.b." ; host n has IP Prefix+n
+	Hosts                  map[string]*Host
+	Topology               []string // IPs advertised in system.local / system.peers
+	DC                     string
+	DSEVersion             string
+	MaxVersion             primitive.ProtocolVersion
+	Script                 map[string][]Outcome
+	Default                Outcome
+	Attempts               map[string]int
+	Log                    []Rec
+	BadKeyspaces           map[string]message.Message
+	SlowKeyspaces          map[string]time.Duration // USE of these is answered only after the delay (a backend slower than the proxy's connect timeout)
+	OddKeyspaces           map[string]bool          // USE of these is answered with a RESULT that is not set_keyspace
+	OptionsReplies         []Outcome                // raw replies handed out, one each, to the next OPTIONS (heartbeats) of started connections
+	FailSystemOn           map[string]bool          // hosts (IP) whose system-table queries are answered with SERVER_ERROR (no control connection there)
+	ScriptBeforeUnprepared bool                     // EXECUTEs of unknown ids whose token has a script get the scripted outcome, not UNPREPARED
+	StartupDelay           time.Duration            // every STARTUP is answered after this delay (widens the window in which a session is being created)
+	PrepareErr             map[string][]Outcome     // per prepared-id (hex) outcomes of PREPARE attempts
+	prepAttempts           map[string]int
+	nextConn               int
+	seq                    int
+	PrepText               map[string]string   // prepared id hex -> query text
+	OnFrame                func(r *Rec)        // optional observer (called with be.mu held)
+	HostDefault            map[string]*Outcome // per-host outcome overriding scripts for data requests (nil = none)
+	Muted                  map[string]bool     // hosts that read frames but never answer anything
+	HoldOptions            bool                // while set, OPTIONS (heartbeat) answers of started connections are withheld
+	heldOptions            []func()            // the withheld answers, in arrival order
+	HostPrepareErr         map[string]*Outcome // per-host outcome of every PREPARE reaching that host (nil = accept)
+	FailSystem             int                 // the next FailSystem system-table queries are answered with SERVER_ERROR
+	UnpreparedWarn         bool                // attach a warning to UNPREPARED answers (v4+)
+	StrictVersion          bool                // answer PROTOCOL_ERROR to frames whose version differs from the connection's STARTUP
 }
 
 var tokRe = regexp.MustCompile(`tok:([A-Za-z0-9_]+)`)
@@ -317,6 +318,13 @@ func (b *Backend) SetFailSystemOn(n int, on bool) {
 		b.FailSystemOn = map[string]bool{}
 	}
 	b.FailSystemOn[b.IP(n)] = on
+	b.mu.Unlock()
+}
+
+// SetScriptBeforeUnprepared: scripted outcomes win over the UNPREPARED answer for unknown ids.
+func (b *Backend) SetScriptBeforeUnprepared(on bool) {
+	b.mu.Lock()
+	b.ScriptBeforeUnprepared = on
 	b.mu.Unlock()
 }
 
@@ -898,6 +906,11 @@ func (c *Conn) handle(hdr, body, raw []byte) bool {
 		c.host.mu.Lock()
 		known := c.host.Prepared[idh]
 		c.host.mu.Unlock()
+		be.mu.Lock()
+		if be.ScriptBeforeUnprepared && token != "" && len(be.Script[token]) > 0 {
+			known = true // a scripted outcome for this token takes precedence over "unprepared" (a host failing before it looks the id up)
+		}
+		be.mu.Unlock()
 		if !known {
 			be.mu.Lock()
 			rec.Kind = "execute-unprepared"
